@@ -173,7 +173,10 @@ Inductive hstep :=
 | HLocal (l : list N)                        (* the local L0 directory now holds exactly these TXIDs *)
 | HRetain (k : N)                            (* remote files with TXID < k are deleted (k clamped to the max) *)
 | HSync (maxfiles : N) (s : list coutcome)   (* Replica.sync(ctx, maxfiles) under this fault schedule *)
-| HRetry (attempts : nat) (s : list coutcome).
+| HRetry (attempts : nat) (s : list coutcome)
+| HSnap (t : N).                             (* a snapshot 1..t is uploaded at level 9 (DB.Snapshot), possibly ahead of
+                                                the replica's level 0: level 9 is no part of what Replica.sync reads,
+                                                neither the position nor the level-0 set changes *)
 
 Definition retain (k : N) (remote : list N) : list N :=
   let k' := N.min k (maxl remote) in
@@ -188,6 +191,7 @@ Definition hstep_run (st : ust) (h : hstep) : ust * option hobs :=
   | HSync m s => let r := sync m st s in (s_st r, Some (mkH (s_err r) (u_pos (s_st r)) (s_trace r)))
   | HRetry a s => let r := sync_retry a st s [] E_CLIENT in
                   (s_st r, Some (mkH (s_err r) (u_pos (s_st r)) (s_trace r)))
+  | HSnap _ => (st, None)
   end.
 
 Fixpoint hist_run (st : ust) (hs : list hstep) : ust * list hobs :=
